@@ -17,6 +17,7 @@ header.version == type_hash.
 from __future__ import annotations
 
 import itertools
+import warnings
 import json
 import os
 import subprocess
@@ -46,10 +47,15 @@ def edits(name: str, mid: int, fields: Fields) -> List[Tuple[str, str, int, Fiel
     out.append(("rename", name + "X", mid, fields))
     out.append(("rename-case", name.lower() if name != name.lower() else name.upper(), mid, fields))
     out.append(("id", name, mid + 1, fields))
+    # names are text: letters outside ASCII are letters like any other (two such renames are two different texts)
+    out.append(("rename-nonascii-1", name + "É", mid, fields))
+    out.append(("rename-nonascii-2", name + "Ü", mid, fields))
     n = len(fields)
     for i in range(n):
         fn, ft = fields[i]
         out.append((f"field-rename@{i}", name, mid, fields[:i] + ((fn + "x", ft),) + fields[i + 1:]))
+        out.append((f"field-rename-nonascii-1@{i}", name, mid, fields[:i] + ((fn + "φ", ft),) + fields[i + 1:]))
+        out.append((f"field-rename-nonascii-2@{i}", name, mid, fields[:i] + ((fn + "ψ", ft),) + fields[i + 1:]))
         # ... including the other spellings of one machine type (each spelling is a type text of its own)
         for t in TYPES + ["int32[2]", "uint32"] + SPELLINGS:
             if t != ft:
@@ -484,10 +490,26 @@ def wire_versions(pyfile: str) -> Tuple[List[Dict[str, Any]], int]:
         for k, v in vars(m).items():
             if isinstance(v, type) and issubclass(v, MessageData) and v is not MessageData and k.startswith("MDF_"):
                 classes.append(v)
+    # ... and of application classes derived from generated ones (helper methods only: same definition, same hash)
+    derived = {}
+    for cls in classes[::5]:
+        try:
+            derived[cls] = type("App" + cls.__name__, (cls,), {"describe": lambda self: type(self).__name__})
+        except Exception as e:
+            problems.append({"kind": "derived-class-rejected", "cls": cls.__name__, "exc": f"{type(e).__name__}: {str(e)[:120]}"})
     n = 0
     for tc in (False, True):
         sp = clx.ScriptedPeer(timecode=tc)
         try:
+            for base, sub in derived.items():
+                sp.peer.rx.clear()
+                with warnings.catch_warnings():
+                    warnings.simplefilter("ignore")
+                    sp.client.send_message(sub())
+                frames, rest, prob = P.parse_stream(bytes(sp.peer.rx), tc)
+                n += 1
+                if len(frames) != 1 or rest or frames[0].h[11] != base.type_hash or frames[0].msg_type != base.type_id:
+                    problems.append({"kind": "wire-version-derived-class", "cls": base.__name__, "sent": hex(frames[0].h[11]) if frames else None, "type_hash": hex(base.type_hash)})
             for cls in classes:
                 sp.peer.rx.clear()
                 sp.client.send_message(cls())
